@@ -507,7 +507,7 @@ def gen_foreign(rng):
     when the pool has no thread yet, all threads are busy (long work functions submitted by the owner), threads are idle
     (helper created by an owner timer after 1 ns .. 5 s) or have exited after the 10 s idle timeout (owner timer at
     11 .. 30 s).  No iv_work_pool_put in these scenarios (API contract: no put before / concurrent with a foreign
-    submission, nor while foreign-submitted work is queued and the pool has no thread)."""
+    submission; the put AFTER a foreign submission is gen_foreign_put)."""
     m = rng.choice([1, 1, 2, 2, 3])
     sc = Scen(rng, m)
     nh = rng.randint(1, 3)
@@ -565,13 +565,63 @@ def gen_foreign(rng):
     return sc.text()
 
 
+def gen_foreign_put(rng):
+    """iv_work_pool_put right after a FOREIGN submission to a pool that has no thread (fix D10: the put starts a thread
+    for the queued work instead of posting pool->ev and letting iv_work_event free the pool with the item queued).
+    The helper is scheduled first (schedule = its thread index, long enough for its whole submit call and its exit), the
+    owner then calls wp0 from the same set-up script / timer handler, i.e. before its loop has served thread_needed; the
+    put does not overlap the helper's submit call (that would be a contract violation: REJECT).  Variants: from the
+    set-up; from an owner timer; from an owner timer after the pool's only thread has exited on its idle timeout; two
+    helpers one after the other."""
+    m = rng.choice([1, 1, 2, 3])
+    sc = Scen(rng, m)
+    variant = rng.choice(["setup", "setup", "timer", "after_timeout", "two"])
+
+    def script(nmax):
+        acts = ["y"] * rng.randint(0, 1)
+        for _ in range(rng.randint(1, nmax)):
+            j = sc.item()
+            if j is None:
+                break
+            acts.append("wS0.0.%d" % j)
+            if rng.random() < 0.3:
+                sc.add(("w", j), ["y"] * rng.randint(1, 2))
+        return acts + rng.choice(["", "", "y", "hx"]).split()
+
+    gap = ["y"] * rng.randint(0, 3)
+    if variant == "setup":
+        if rng.random() < 0.3:
+            sc.setup.append("wl%d" % sc.item())
+        sc.setup += ["tc1"] + gap + ["wp0"] + ["y"] * rng.randint(0, 2)
+        sc.add(("h", 1), script(3))
+        sc.sched = "1" * 80
+    elif variant == "timer":
+        sc.setup.append("tr0+%d" % rng.choice([1, 1000, S, 5 * S]))
+        sc.add(("t", 0), ["tc1"] + gap + ["wp0"])
+        sc.add(("h", 1), script(3))
+        sc.sched = "1" * 80
+    elif variant == "after_timeout":
+        i = sc.item()
+        sc.setup += ["ws0.%d" % i, "tr0+%d" % rng.choice([11 * S, 15 * S, 20 * S, 30 * S])]
+        sc.add(("t", 0), ["tc1"] + gap + ["wp0"])
+        sc.add(("h", 1), script(2))
+        sc.sched = "2" * 400          # thread 1 = the pool thread of the first item (gone by then), thread 2 = the helper
+    else:
+        sc.setup += ["tc1", "y", "y", "tc2"] + ["y"] * 14 + ["wp0"]
+        sc.add(("h", 1), ["wS0.0.%d" % sc.item()])
+        sc.add(("h", 2), script(2))
+        sc.sched = "1" * 14 + "2" * 60
+    sc.m = 120
+    return sc.text()
+
+
 # ---------------------------------------------------------------------------------------------------------
 def log_features(log):
     """what happened in a log, for the non-triviality rules and the distribution report"""
     f = {"workers": 0, "switch_in_cs": False, "cont": False, "idle_exit": False, "rearm": False, "kick_idle": False,
          "put": False, "stop_after_put": False, "put_starting": False, "helper_te": False, "helper_init": False,
          "helpers": 0, "local": False, "self_kick": False, "needed": False, "foreign": False, "foreign_needed": False,
-         "foreign_kick": False, "end": ""}
+         "foreign_kick": False, "put_starts_thread": False, "end": ""}
     if not log:
         return f
     segs = []
@@ -639,6 +689,8 @@ def log_features(log):
             f["stop_after_put"] = True
         elif x.startswith("Tc "):
             started.add(int(x[3:]))
+            if inact.get(t, "").startswith("a wp"):
+                f["put_starts_thread"] = True      # fix D10: work queued by a foreign submitter, no pool thread
         elif x.startswith("Ch"):
             f["helpers"] += 1
             helper_thr.add(t)
@@ -706,12 +758,12 @@ class _WorkCheck(MTCheck):
         "iv_work_pool_put and no put concurrent with a continuation submission; threads are created and pools put / plainly submitted to from "
         "the owner only; continuations are submitted by pool threads from inside a work function or by FOREIGN submitters (a running thread "
         "that is neither the owner nor a thread of the pool); handlers and work functions return; thread_start / thread_stop hooks are set",
-        "API contract for FOREIGN submitters (guards of `step`: cs_submit_g, the put branch of st_lock, the destructor branch of st_evo): the pool "
-        "has not been put when the foreign submission takes the pool lock (no put before or concurrent with it); iv_work_pool_put is not "
-        "called while work is queued and the pool has no thread (started_threads = 0: only a foreign submission whose thread_needed event "
-        "the owner has not yet served leaves the pool in that state; iv_work_pool_put / iv_work_event test started_threads and work_done "
-        "only and would free the pool with the item still queued -- reported as a finding, not explored by the generator: no put in the "
-        "foreign scenarios); a thread does not exit inside a submit call",
+        "API contract for FOREIGN submitters (guards of `step`: cs_submit_g, the destructor branch of st_evo): the pool has not been put "
+        "when the foreign submission takes the pool lock (no put before or concurrent with it); a thread does not exit inside a submit "
+        "call.  A put AFTER a foreign submission is covered: with work queued and no pool thread (started_threads = 0: a foreign "
+        "submission whose thread_needed event the owner has not yet served) iv_work_pool_put starts a thread under the lock (fix D10, "
+        "/repo commit eb5cf18; before it the pool was freed with the item queued: MT/WorkForeignPut.v, docs/D10_demo.c) -- the model's put "
+        "critical section follows the code, scenario family gen_foreign_put",
         "partial: thread-creation failure and allocation failure are not modelled; fewer than 2^31 items queued at once; several pools on "
         "one loop are independent instances sharing only the owner's event list (not explored); no iv_quit; the harness does not "
         "distinguish a local (NULL pool) work function that runs inside the submit call from one that runs from the task right after it",
@@ -747,6 +799,7 @@ class _WorkCheck(MTCheck):
         for m in (1, 2, 3, 4):
             d["max_threads_%d" % m] = sum(1 for c in cases if "wc0=%d" % m in c)
         d["with_schedule"] = sum(1 for c in cases if ";Z" in c)
+        d["cases_put_after_foreign_submission"] = sum(1 for c in cases if re.search(r";H0h\d+:[^;]*wS", c) and "wp0" in c)
         return d
 
     def _fails(self, ctx, case):
@@ -821,7 +874,9 @@ class C12(_WorkCheck):
             "idle expiry); (d) NULL-pool items mixed with pool items, submitted from set-up, local work functions, completions, timers; "
             "(e) FOREIGN submitters: 1-3 helper threads made by the owner (set-up, or an owner timer at 1 ns .. 5 s / 10 .. 30 s) each call "
             "iv_work_pool_submit_continuation for 1-2 fresh items, max_threads 1-3, when the pool has no thread yet / every thread is busy / "
-            "threads are idle / threads have exited after the 10 s idle timeout, no put; "
+            "threads are idle / threads have exited after the 10 s idle timeout, no put; (f) iv_work_pool_put right after a foreign "
+            "submission to a pool without threads (helper scheduled first, then the put from the same set-up script / timer handler, before "
+            "thread_needed is served): the put starts the thread (fix D10); "
             "schedules Z: random, bursty, ping-pong, owner first (threads still starting when more work arrives), workers first.  "
             "non-trivial = another thread ran while some thread held the pool lock, or >= 2 pool threads ran work functions, or an idle "
             "timer fired (exit or re-arm), or a continuation / self-kick / thread_needed post happened, or a foreign submission (a helper "
@@ -867,7 +922,7 @@ class C12(_WorkCheck):
         q = ctx.tier == "quick"
         return [(gen_burst, 230 if q else 12000), (gen_cont, 110 if q else 6000), (gen_needed, 120 if q else 6000),
                 (gen_idle_race, 140 if q else 8000), (gen_local, 80 if q else 4000), (gen_put_at, 40 if q else 2000),
-                (gen_foreign, 100 if q else 5000)]
+                (gen_foreign, 100 if q else 5000), (gen_foreign_put, 30 if q else 1500)]
 
     def nontrivial(self, case, log):
         f = log_features(log)
@@ -951,14 +1006,20 @@ class C13(_WorkCheck):
             "threads made by iv_thread_create from set-up, completions and timers ending by return / pthread_exit, with iv_init and "
             "with or without iv_deinit; the harness overwrites the user's struct iv_work_pool right after put returns; schedules as "
             "C12, owner-first ones leave threads starting when the put arrives.  non-trivial = a pool thread ran its stop hook after the "
-            "put, or the put found a thread that had not yet run its start hook, or a helper ended by pthread_exit / with its own loop; "
-            "distinct = distinct scenario text")
+            "put, or the put found a thread that had not yet run its start hook, or a helper ended by pthread_exit / with its own loop, or the "
+            "put itself started a thread (work queued by a foreign submitter -- a helper thread calling iv_work_pool_submit_continuation -- "
+            "while the pool had no thread: family gen_foreign_put, the helper is scheduled first and the put follows from the same set-up "
+            "script / timer handler before thread_needed is served; fix D10); distinct = distinct scenario text")
     FIXED = [
         "Bet;M40;L0:wc0=1 wp0",
         "Bet;M40;Z00000000000000000000000011;L0:wc0=1 ws0.0 wp0",
         "Bet;M40;L0:tc1 tc2 tc3 tc4;H0h1:hx;H0h2:hi hx;H0h3:hi hd;H0h4:hi y hd hx",
         "Bet;M40;Z0102010201;L0:wc0=2 ws0.0 tc1;H0h1:hi;H0c0:wp0",
         "Bet;M60;L0:wc0=2 ws0.0 ws0.1 tr0+10000000000;H0t0:wp0",
+        # fix D10: put right after a foreign submission to a pool without threads (the put starts the thread)
+        "Bet;M60;Z111111111111111111111111;L0:wc0=1 tc1 y y wp0;H0h1:wS0.0.3",
+        "Bet;M60;Z1111111111111111111111111111;L0:wc0=2 tc1 y wp0;H0h1:wS0.0.3 wS0.0.4",
+        "Bet;M80;Z%s;L0:wc0=2 ws0.0 tr0+15000000000;H0t0:tc1 y y y wp0;H0h1:wS0.0.1 wS0.0.2 hx" % ("2" * 300),
     ]
 
     def mix(self, ctx):
@@ -971,8 +1032,8 @@ class C13(_WorkCheck):
             return gen_put_at(rng, place=PUT_PLACES[rng.randrange(len(PUT_PLACES))])
 
         return [(put_sys, 330 if q else 15000), (gen_helpers, 130 if q else 6000), (burst_put, 130 if q else 6000),
-                (gen_cont, 60 if q else 3000), (gen_idle_race, 50 if q else 2000)]
+                (gen_cont, 60 if q else 3000), (gen_idle_race, 50 if q else 2000), (gen_foreign_put, 60 if q else 3000)]
 
     def nontrivial(self, case, log):
         f = log_features(log)
-        return bool(f["stop_after_put"] or f["put_starting"] or f["helper_te"] or f["helper_init"])
+        return bool(f["stop_after_put"] or f["put_starting"] or f["helper_te"] or f["helper_init"] or f["put_starts_thread"])
